@@ -395,6 +395,13 @@ def rowtags(F, R):
         tag = F.strs[r['tds']['row_type_tag']].split('::')[-1]
         if tag not in TAGS_G | TAGS_A | TAGS_INTERNAL | {'_row_tag'}: continue
         meths = set(r['methods'])
+        # behaviours may be inherited from another row template (e.g. an internal row written as a derived external one)
+        todo = [F.strs[b['t']] for b in r['bases']]; k = 0
+        while todo and k < 8:
+            k += 1
+            br = F.rec_by_type(todo.pop(0))
+            if br is None: continue
+            meths |= set(br['methods']); todo.extend(F.strs[b['t']] for b in br['bases'])
         fam = r['loc'].split(':')[0].split('/')[-1] + ':' + r['n']
         R.anchor('front-row:' + fam)
         hasg, hasa = 'guard_call' in meths, 'action_call' in meths
@@ -404,8 +411,9 @@ def rowtags(F, R):
         a = F.strs[r['tds']['Action']] if 'Action' in r['tds'] else None
         if ok and g is not None and (g.endswith('front::none')) != (tag not in TAGS_G): ok = False; why = 'tag %s but Guard typedef is %s' % (tag, Facts.short(g, 40))
         if ok and a is not None and (a.endswith('front::none')) != (tag not in TAGS_A): ok = False; why = 'tag %s but Action typedef is %s' % (tag, Facts.short(a, 40))
-        src = F.strs[r['tds']['Source']] if 'Source' in r['tds'] else None
-        tgt = F.strs[r['tds']['Target']] if 'Target' in r['tds'] else None
+        MM = Model(F)
+        src = F.strs[r['tds']['Source']] if 'Source' in r['tds'] else MM.member_type(F.strs[r['t']], 'Source')
+        tgt = F.strs[r['tds']['Target']] if 'Target' in r['tds'] else MM.member_type(F.strs[r['t']], 'Target')
         if ok and src is not None and tgt is not None and tag in ('row_tag', 'a_row_tag', 'g_row_tag', '_row_tag', 'irow_tag', 'a_irow_tag', 'g_irow_tag', '_irow_tag'):
             internal = tgt.endswith('front::none') or (tgt == src and tag in TAGS_INTERNAL)
             if internal != (tag in TAGS_INTERNAL): ok = False; why = 'tag %s but Source=%s Target=%s' % (tag, Facts.short(src, 30), Facts.short(tgt, 30))
@@ -1303,3 +1311,28 @@ def chainexec(F, R):
             ok = ok and sorted(x for x in rets if x is not None) == [0, 1]
             R.ob('C01.chain', ok, {'func': f.q, 'transition': Facts.short(T, 70)})
             if not ok: R.find('C01.chain', f, 'step', 'a chain step must run the executor of its own transition once and stop the chain exactly when it was taken or deferred', instance=Facts.short(T, 150))
+
+ROW_NAME_TAG = {'row': 'row_tag', 'a_row': 'a_row_tag', 'g_row': 'g_row_tag', '_row': '_row_tag', 'irow': 'irow_tag', 'a_irow': 'a_irow_tag', 'g_irow': 'g_irow_tag', '_irow': '_irow_tag',
+                'row2': 'row_tag', 'a_row2': 'a_row_tag', 'g_row2': 'g_row_tag', '_row2': '_row_tag', 'irow2': 'irow_tag', 'a_irow2': 'a_irow_tag', 'g_irow2': 'g_irow_tag', '_irow2': '_irow_tag',
+                'internal': 'sm_i_row_tag', 'a_internal': 'sm_a_i_row_tag', 'g_internal': 'sm_g_i_row_tag', '_internal': 'sm__i_row_tag'}
+
+@rule('rownames')
+def rownames(F, R):
+    """C14.rows (name <-> kind): the documented row templates of the member-function front-end, the row2 family and internal_row.hpp are
+    what their names say - the tag a back-end sees for `g_irow2<...>` (own or inherited typedef) is g_irow_tag, etc.  The tag decides
+    which executor the back-end generates (external rows exit and re-enter, internal ones do not)."""
+    M = Model(F)
+    for r in F.records:
+        loc = r['loc'].split(':')[0]
+        if loc not in ('boost/msm/front/state_machine_def.hpp', 'boost/msm/front/row2.hpp', 'boost/msm/front/internal_row.hpp'): continue
+        want = ROW_NAME_TAG.get(r['n'])
+        if want is None or not r.get('a'): continue
+        t = F.strs[r['t']]
+        tag = M.member_type(t, 'row_type_tag')
+        if tag is None: continue
+        tag = tag.split('::')[-1]
+        R.anchor('row-name:%s:%s' % (loc.split('/')[-1], r['n']))
+        ok = tag == want
+        R.ob('C14.rows', ok, {'row': Facts.short(t, 90), 'tag': tag, 'expected_from_name': want})
+        if not ok:
+            R.find('C14.rows', (loc, r['q']), 'name:' + r['n'], 'front-end row template %s carries %s, its documented kind is %s: the back-end builds %s' % (r['n'], tag, want, 'an external transition (exit and entry run) for an internal row' if 'irow' in want or 'i_row' in want else 'the wrong executor'), where=r['loc'], instance=Facts.short(t, 200))
